@@ -297,6 +297,16 @@ def key_of(inv, rec, prev=None):
     where = "+".join(notable) if notable else ("quiesce" if rec.get("kind") in ("quiesce", "final") else "plain")
     if inv.startswith("C07") and "Signal" not in acts and rec.get("sig_on_make") and rec.get("sigFired"):
         where = "SignalFromMake" + ("+Probe" if "Probe" in acts else "")
+    if inv == "C07_OpenToldAndClosed":
+        # which kind of open connection did not close
+        kinds = set()
+        for cn in rec.get("conns", []):
+            if cn.get("coop") and not cn.get("faulted") and cn.get("spawnSeq") and cn["spawnSeq"] < rec.get("sigSeq", 0) \
+                    and not (cn.get("eof") and cn.get("fin")):
+                kinds.add("sniffing-with-preface-prefix" if cn.get("prefixed") else "tls-handshake-pending" if cn.get("plain")
+                          else "nothing-sent" if not any(q["sent"] for q in cn["reqs"]) else "request-in-progress-or-idle")
+        if kinds:
+            where = "+".join(sorted(kinds))
     if inv == "C09_Quiescent":
         # a task that never goes idle: the class is which kind of fault preceded it in the schedule
         kinds = sorted({b.get("a") for b in (rec.get("sched_steps") or []) if b.get("a") in ("Prefix", "ResetConnect")})
